@@ -254,7 +254,7 @@ Fixpoint shiftable (t : tok) : bool :=
   | THarmonyBegin | THarmonyEnd _ _ _ | TChannel _ | TVoice _ | TKeyFlag _ | TKeyShift _ | TTrackKey _ | TComment
   | TTimeSignature _ | TMeasureShift _ | TTempo _ | TVAdd _ | TQAdd _ | TTieMode _
   | TCC _ _ | TPitchBend _ _ | TRpnCmd _ _ _ _ | TRpnDirect _ _ => true     (* events at the pointer of the current track *)
-  | TMetaText _ _ => true                                                     (* a text meta event at the pointer of the current track *)
+  | TMetaText _ _ | TPort _ => true                                           (* a meta event at the pointer of the current track *)
   | _ => false
   end.
 
@@ -666,6 +666,7 @@ Section StepShift.
       destruct args as [|a [|b [|c [|d l]]]]; try apply add_log_shifted_ok.
       apply add_events_shift. destruct nrpn; reflexivity.
     - (* TMetaText *) destruct (_ && _); [|reflexivity]. apply add_events_shift. reflexivity.
+    - (* TPort *) apply add_events_shift. reflexivity.
   Qed.
   End One.
 
